@@ -247,6 +247,18 @@ def r3(ctx, rep):
         if n.get("k") == "if" and Ag.show(n["c"]) == "sort.is_empty()":
             node = n
     if node is None:
+        # the pair may live in a private helper taking the test as its argument: follow `frame: helper(<test>)` of the Window literal
+        for n in walk(g["body"]):
+            if n.get("k") == "struct" and last_seg(n["p"]) == "Window":
+                fv = {a: b for a, b in n["f"]}.get("frame")
+                if fv is not None and fv.get("k") == "call" and len(fv["a"]) == 1 and Ag.show(fv["a"][0]) == "sort.is_empty()":
+                    hs = [h for h in syn.fns if h["crate"] == "prqlc" and h["file"] == g["file"] and h["name"] == last_seg(show(fv["f"])) and "body" in h]
+                    if len(hs) == 1:
+                        prm = [show(x.get("pat", x)).split(":")[0].strip() if isinstance(x, dict) else str(x).split(":")[0].strip() for x in hs[0].get("params", [])]
+                        t_ = tail_expr(hs[0]["body"])
+                        if t_ is not None and t_.get("k") == "if" and len(prm) == 1 and show(t_["c"]) == prm[0]:
+                            node = t_
+    if node is None:
         raise AnchorMissing("create_filter_by_row_number: `if sort.is_empty()`")
     c2, t2, e2 = frame_pair(node)
     rep.check(t2 == ("Rows", None, None) and e2[0] == "Range" and e2[1] == "None" and e2[2] is not None and "int_expr(0)" in e2[2], "sibling:row_number",
@@ -378,9 +390,14 @@ def r5(ctx, rep):
     # translate_cid: windowed iff compute.window
     tc_ = syn.fn("gen_expr::translate_cid", crate="prqlc")
     ok = False
+    from synq import variant_table
     for n in walk(tc_["body"]):
-        if n.get("k") == "if" and n["c"].get("k") == "let" and show(n["c"]["e"]) == "window" and "translate_windowed(expr, window, ctx, span)" in show_stmts(n["t"]):
-            ok = show(tail_expr(n["e"])) == "expr"
+        vt = variant_table(n) if n.get("k") in ("if", "match") else None
+        if vt and "Some" in vt[1] and "translate_windowed(" in vt[1]["Some"]:
+            # the wrapped value is the first argument; without a window the very same value is the result
+            m_ = re.search(r"translate_windowed\((\w+), ", vt[1]["Some"])
+            other = vt[1].get("None", vt[2])
+            ok = bool(m_) and other == m_.group(1) and len(vt[1]) <= 2
     rep.check(ok, "emit:over", "a column with a window must be wrapped by translate_windowed, others left as they are", file=tc_["file"], line=tc_["l"], fn=tc_["path"])
     asg = [show(n["rhs"]) for n in walk(tc_["body"]) if n.get("k") == "assign" and show(n["lhs"]) == "ctx.query.window_function"]
     rep.check(asg == ["window.is_some()", "prev_wf"], "emit:flag", f"window_function must be set from compute.window and restored; found {asg}", file=tc_["file"], line=tc_["l"], fn=tc_["path"])
